@@ -323,8 +323,11 @@ Proof.
   unfold bind at 1 in H.
   destruct (compose_event d (dupdate [] r) [] s) as [s1 [ev|e]] eqn:Hce.
   - apply compose_event_ok in Hce. destruct Hce as (seq & _ & -> & _ & _ & _ & O & _).
-    unfold emit, modify in H. inversion H; subst. cbn. rewrite O.
-    eexists. split; [reflexivity|]. intros x [<-|[]]. repeat eexists; eauto.
+    unfold emit, modify, bind, get, of_opt in H. cbn in H.
+    match type of H with
+    | context [dget ?m ?k] => destruct (dget m k) as [c|] eqn:Hk
+    end; cbn in H; inversion H; subst; cbn; rewrite O;
+      (eexists; split; [reflexivity|]; intros x [<-|[]]; repeat eexists; eauto).
   - assert (O : b_out s1 = b_out s).
     { assert (R : rel out_only (compose_event d (dupdate [] r) [])) by (unfold compose_event; rel_go ltac:(reflexivity)).
       specialize (R s). rewrite Hce in R. apply R. }
